@@ -891,3 +891,33 @@ Proof.
   exists (fst (surv_step false surv_init (PSend None 1%N false (mkPmsg [] [7%N])))), 2%N.
   split; [vm_compute; reflexivity|]. eexists. split; vm_compute; reflexivity.
 Qed.
+
+(* ================================================================ a receive's own timeout (or any cancel) *)
+(* surv0_ctx_cancel: the receive completes with the given error (NNG_ETIMEDOUT when its own timeout ends before
+   the survey's deadline, NNG_ECANCELED for nng_aio_cancel), nothing is delivered, and -- as coded -- the
+   survey is retired *)
+Lemma cancel_ctxs_hit a rv l k c :
+  kget k l = Some c -> In a (sc_rq c) -> (forall k' c', In (k', c') l -> In a (sc_rq c') -> k' = k) ->
+  snd (cancel_ctxs a rv l) = [Complete a rv None] /\
+  kget k (fst (cancel_ctxs a rv l)) = Some (mkSctx 0 (sc_lmq c) (remove_id a (sc_rq c)) (sc_stime c) (sc_expire c)).
+Proof.
+  induction l as [|[k0 c0] l IH]; cbn [kget cancel_ctxs]; [discriminate|]. intros G Ha U.
+  destruct (has_id a (sc_rq c0)) eqn:HA.
+  - assert (k0 = k) by (apply (U k0 c0); [now left|now apply has_id_in]). subst. rewrite N.eqb_refl in G. inversion G; subst.
+    cbn [fst snd kget]. now rewrite N.eqb_refl.
+  - destruct (N.eqb_spec k0 k).
+    + inversion G; subst. apply has_id_in in Ha. congruence.
+    + destruct (IH G Ha) as [A B]; [intros k' c' Hin; apply U; now right|].
+      destruct (cancel_ctxs a rv l) as [r o]. cbn [fst snd kget] in *. destruct (N.eqb_spec k0 k); [contradiction|]. auto.
+Qed.
+Theorem surv_recv_cancel_retires fx s a rv k c s' outs :
+  kget k (sv_ctxs s) = Some c -> In a (sc_rq c) ->
+  (forall k' c', In (k', c') (sv_ctxs s) -> In a (sc_rq c') -> k' = k) ->
+  surv_step fx s (PCancel a rv) = (s', outs) ->
+  outs = [Complete a rv None] /\
+  exists c', kget k (sv_ctxs s') = Some c' /\ sc_survey c' = 0%N /\ sc_rq c' = remove_id a (sc_rq c) /\ sc_lmq c' = sc_lmq c.
+Proof.
+  intros G Ha U St. cbn [surv_step] in St. destruct (cancel_ctxs_hit a rv _ _ _ G Ha U) as [A B].
+  destruct (cancel_ctxs a rv (sv_ctxs s)) as [cs o]. cbn [fst snd] in *. inversion St; subst. split; [reflexivity|].
+  eexists. split; [exact B|]. cbn. auto.
+Qed.
